@@ -211,6 +211,15 @@ pub fn c10(rep: &mut Report) {
                         // comparison (same answer, same effect on the next connection)
                         let mut pre_a: Trace = vec![];
                         let mut pre_b: Trace = vec![];
+                        // an object that holds no session (the last one ended with its connection, or no attempt was
+                        // ever established) holds nothing of one: store, handled identifiers, identifiers in use
+                        if !w.m.persistent && !w.m.keep_mark && !w.cfg.offline {
+                            for (c, t) in [(&a, &mut pre_a), (&b, &mut pre_b)] {
+                                let sn = c.snap();
+                                let in_use = crate::conn::in_use_ids(&sn.pid_free, 65535).len() as u64;
+                                t.push(("session state held while disconnected (stored packets, handled ids, ids in use, awaited acks)".into(), vec![Ev::TimerReset(Tk::PingreqSend, sn.store.len() as u64), Ev::TimerReset(Tk::PingreqSend, sn.qos2_publish_handled.len() as u64), Ev::TimerReset(Tk::PingreqSend, in_use), Ev::TimerReset(Tk::PingreqSend, (sn.pid_puback.len() + sn.pid_pubrec.len() + sn.pid_pubcomp.len()) as u64)]));
+                            }
+                        }
                         // between the connections no alias binding exists any more (v5.0)
                         if ver == Ver::V5 {
                             for (c, t) in [(&a, &mut pre_a), (&b, &mut pre_b)] {
@@ -372,6 +381,25 @@ pub fn c16_configs(thorough: bool) -> Vec<EpCfg> {
                 v.push(c);
             }
         }
+    }
+    // v5.0 publishes that register an alias next to a padded property block (129 bytes with the alias, 126 in
+    // the stored copy): what is exported, restored and retransmitted is a frame the peer reads as the same message
+    // (the frame rule of the reference model is on while the crash points are collected)
+    for role in [RoleK::Client, RoleK::Server] {
+        if !thorough && role == RoleK::Server {
+            continue;
+        }
+        let mut c = EpCfg::new(&cfg_name("c16", role, Some(Ver::V5), "padded properties, aliases"), role, Some(Ver::V5));
+        c.auto_pub = true;
+        c.window = 2;
+        c.pub_pad = 120;
+        c.alph = session_alph(true, 2);
+        c.alph.pub_q = vec![1, 2];
+        c.alph.als = vec![Al::No, Al::Reg(1)];
+        c.connects = vec![ConnProf { tam: Some(1), ..ConnProf::basic(false) }];
+        c.connacks = vec![AckProf { tam: Some(1), ..AckProf::basic(true) }];
+        c.groups = vec!["c06"];
+        v.push(c);
     }
     // three stored messages and the application's message-expiry hook (erase_stored_publish): the export keeps
     // the acceptance order whichever entry is erased
